@@ -12,7 +12,7 @@ import (
 
 // Case line: black plys wtime btime winc binc movestogo movetime
 func init() {
-	props["C08"] = prop{gen: c08gen, run: c08run}
+	props["C08"] = common.Prop{Gen: c08gen, Run: c08run}
 }
 
 var c08clocks = []int{0, 1, 2, 9, 10, 11, 49, 50, 51, 55, 56, 99, 100, 101, 499, 500, 501, 999, 1000, 1001,
